@@ -429,9 +429,15 @@ func argOfParam(v ssa.Value) (ssa.Value, bool) {
 
 // resolveLoad: when v is a load of a private single-store local (err spilled because a
 // closure captures it, named results, ...) return the stored value; else v.
-func (w *World) resolveLoad(v ssa.Value) ssa.Value {
+func (w *World) resolveLoad(v ssa.Value) ssa.Value { return w.resolveLoadX(v, true) }
+
+// resolveLoadLocal: resolveLoad without stepping from a single-call-site helper's parameter
+// to the argument (for analyses that track the call frames themselves).
+func (w *World) resolveLoadLocal(v ssa.Value) ssa.Value { return w.resolveLoadX(v, false) }
+
+func (w *World) resolveLoadX(v ssa.Value, hopParams bool) ssa.Value {
 	for i := 0; i < 8; i++ {
-		if a, ok := argOfParam(v); ok {
+		if a, ok := argOfParam(v); ok && hopParams {
 			v = a
 			continue
 		}
